@@ -375,6 +375,19 @@ def check_order(repo, res):
             g = comp.generators[0]
             if isinstance(comp.elt, ast.Subscript) and isinstance(comp.elt.value, ast.Name) and comp.elt.value.id == "pos" and isinstance(g.iter, ast.Attribute) and g.iter.attr == "nodes" and not g.ifs:
                 ok = True
+        # loop form: coords = []; for v in H.nodes: coords.append(pos[v]); xy = np.asarray(coords)
+        if isinstance(s, ast.Assign) and isinstance(s.value, ast.Call) and s.value.args and isinstance(s.value.args[0], ast.Name):
+            lst = s.value.args[0].id
+            for lp in own_statements(dn.node):
+                if isinstance(lp, ast.For) and isinstance(lp.target, ast.Name) and isinstance(lp.iter, ast.Attribute) and lp.iter.attr == "nodes":
+                    v = lp.target.id
+                    for b in lp.body:  # directly in the loop body: not under a condition
+                        if isinstance(b, ast.Expr) and isinstance(b.value, ast.Call) and isinstance(b.value.func, ast.Attribute) and b.value.func.attr == "append" and isinstance(b.value.func.value, ast.Name) and b.value.func.value.id == lst and b.value.args:
+                            a = b.value.args[0]
+                            if isinstance(a, ast.Subscript) and isinstance(a.value, ast.Name) and a.value.id == "pos" and isinstance(a.slice, ast.Name) and a.slice.id == v:
+                                others = [x for x in ast.walk(dn.node) if isinstance(x, ast.Call) and isinstance(x.func, ast.Attribute) and x.func.attr in ("append", "extend", "insert") and isinstance(x.func.value, ast.Name) and x.func.value.id == lst]
+                                if len(others) == 1:
+                                    ok = True
     res.inst("L-ORDER", "draw_nodes builds the scatter coordinates by iterating H.nodes", ok)
     if not ok:
         res.add(mk_finding(PROP, "L-ORDER", dn, dn.node, "draw_nodes does not build the marker coordinates as [pos[v] for v in H.nodes]; markers would not be in node order (per-node style arrays are)", role="xy"))
